@@ -4,7 +4,7 @@ import itertools
 import z3
 
 from .. import symx
-from ..run import Harness
+from ..run import Harness, Prepared
 from ..symx import choice, INT64_MIN
 from ..tree import Arr, Frame, Raised
 from .common import (BV, FP, T, summary_equal, cell_ident, const_int, const_ints, isna, kind_of, mk_col, rid_col, same_key, val_lt,
@@ -187,6 +187,7 @@ def harnesses(tier):
         hs.append(Group("aggregate", ["i", "b"], 3))
         hs.append(Group("count", ["td"], 3))
         hs.append(Group("aggregate", ["i"], 2, interleave="count"))
+        hs.append(Prepared(Group("count", ["T"], 2)))
         hs.append(Group("aggregate", ["us"], 2))
         for mode in ("count", "split", "modify", "helper"):
             hs.append(Group(mode, ["f"], 3))
